@@ -311,7 +311,7 @@ fn run_a(tier: Tier, rep: &mut Report) {
             let mut rep = Report::new();
             let name = init.cfg.name;
             let _g = crate::engine::watch(|| format!("C12(a) {}", name));
-            let ex = explore(init, &Limits { max_states: cap, keep_final_traces: 2, keep_state_traces: 0, max_found: 6, ..Default::default() });
+            let ex = explore(init, &Limits { max_states: cap, keep_final_traces: 2, keep_state_traces: 0, max_found: 6, dfs: true, ..Default::default() });
             rep.states += ex.states;
             rep.transitions += ex.transitions;
             rep.evaluations += ex.finals;
@@ -560,7 +560,12 @@ fn run_streams(streams: &[Vec<u8>], rep: &mut Report, label: &str) {
                                 Err(p) => Err((format!("C12:stream:panic-driver:{}", crate::engine::panic_site(&p)), p)),
                             };
                             match r {
-                                Ok(class) => rep.distinct_hash(&class),
+                                Ok(class) => {
+                                    if (ci * 64 + i) % 997 == 0 && out_len == 1 {
+                                        crate::engine::validate_case(&mut rep, replay, json!({"kind": "b", "request": kind, "one_byte": one_byte, "out_len": out_len, "stream": hex(s)}));
+                                    }
+                                    rep.distinct_hash(&class)
+                                }
                                 Err((key, what)) => rep.violation(Violation { key, ord: (ci * 64 + i) as u64, what: format!("{} [request {}, {} arrivals, {}-byte output, stream {:?}]", what, kind, if one_byte { "1-byte" } else { "single" }, out_len, show(&s[..s.len().min(160)])), replay: json!({"kind": "b", "request": kind, "one_byte": one_byte, "out_len": out_len, "stream": hex(s)}) }),
                             }
                         }
